@@ -503,11 +503,20 @@ def gen_memdep_a64(rng):
             base_rewritten = True
         if r < 0.25:
             k = rng.choice([8, 16, 64])
-            lines.append("add %s, %s, #%d" % (reg, reg, k))
+            if rng.random() < 0.25:
+                # arithmetic immediate with a shift: `#1, lsl #12` is 4096 (the parser folds the shift into the value)
+                k = rng.choice([1, 2]) << 12
+                lines.append("add %s, %s, #%d, lsl #12" % (reg, reg, k >> 12))
+            else:
+                lines.append("add %s, %s, #%d" % (reg, reg, k))
             sym[reg] = None if v is None else (v[0], v[1] + k)
         elif r < 0.40:
             k = rng.choice([8, 16])
-            lines.append("sub %s, %s, #%d" % (reg, reg, k))
+            if rng.random() < 0.25:
+                k = 1 << 12
+                lines.append("sub %s, %s, #1, lsl #12" % (reg, reg))
+            else:
+                lines.append("sub %s, %s, #%d" % (reg, reg, k))
             sym[reg] = None if v is None else (v[0], v[1] - k)
         elif r < 0.47:
             k = rng.choice([8, 16, 32])
